@@ -932,6 +932,7 @@ func main() {
 	writeScanner(t, *out)
 	writeChunk(t, *out)
 	writeStats(t, *out)
+	writeTrigger(t, *out)
 	if err := os.MkdirAll(*out, 0o755); err != nil {
 		fmt.Fprintln(os.Stderr, err)
 		os.Exit(2)
